@@ -637,6 +637,19 @@ EXAMPLES = [
     {'name': 'manual (LIST): backslash at end of line continues the list', 'observe': 'probe',
      'text': '[setup]\ndef list X = a \\\n  b "c \\" \\\n  d\n' + _EX_PROBE + ' @[X]@\n[act]\n$ true\n',
      'expect': [['list', ['a', 'b', 'c \\', 'd']]]},
+    # --- the other places a string is written at ---
+    {'name': 'hosts: env value, soft quoted with blanks and a reference', 'observe': 'env',
+     'text': _EX_SYMS + 'env V_ = "a  @[S]@ "\n' + _EX_PROBE + '\n[act]\n$ true\n',
+     'expect': [['str', 'a  sval ']]},
+    {'name': 'hosts: stdin of the action as a here document', 'observe': 'stdin',
+     'text': '[act]\n' + _EX_PROBE + '\n' + _EX_SYMS + 'stdin = <<-\n@[S]@\n -\n-\n',
+     'expect': [['str', 'sval\n -\n']]},
+    {'name': 'hosts: file name of adjacent fragments', 'observe': 'fname',
+     'text': _EX_SYMS + 'file a\' b\'"c@[S]@"\'@[S]@\'',
+     'expect': [['name', 'a bcsval@[S]@']]},
+    {'name': 'hosts: -stdin of a program, text until end of line', 'observe': 'pstdin',
+     'text': _EX_SYMS + 'run ' + _EX_PROBE + '\n  -stdin :>  \'q\' "@[S]@"  ',
+     'expect': [['str', '\'q\' "sval"']]},
     # --- minimal inputs of the findings (the fixed ones are plain regression examples) ---
     {'name': 'KF-C09-1: `#` inside a naked string', 'observe': 'file',
      'text': '[setup]\nfile o = a#b\n[act]\n$ true\n',
@@ -674,6 +687,12 @@ EXAMPLES = [
      'text': '[setup]\ndef list X = a' + _NB + 'b ' + _NB + '\n' + _EX_PROBE + ' @[X]@\n[act]\n$ true\n',
      'expect': [['list', ['a' + _NB + 'b', _NB]], ['list', ['a', 'b']]],
      'defect': [KF_LINE_BLANK, ['list', ['a' + _NB + 'b']]]},
+    {'name': 'KF-C09-6: a superfluous argument that consists of a NO-BREAK SPACE is not reported', 'observe': 'file',
+     'text': '[setup]\nfile o = a' + _NB + 'b ' + _NB + '\n[act]\n$ true\n',
+     'expect': [['syntax', 'setup', [['t.case', 2]]]], 'defect': [KF_LINE_BLANK, ['str', 'a' + _NB + 'b']]},
+    {'name': 'KF-C09-7: NO-BREAK SPACE at both ends of the first argument of an instruction', 'observe': 'fname',
+     'text': '[setup]\nfile ' + _NB + 'a' + _NB + '\n[act]\n$ true\n',
+     'expect': [['name', _NB + 'a' + _NB], ['name', 'a']], 'defect': [KF_AFTER_NAME, ['name', 'a' + _NB]]},
 ]
 
 
@@ -685,7 +704,7 @@ def check_example(case) -> Verdict:
     with driver.Workspace() as ws:
         ws.write('t.case', case['text'])
         r = driver.run_inproc(ws, ['--keep', 't.case'])
-        actual = _observe(ws, r, 'file' if case['observe'] == 'file' else 'args')
+        actual = _observe(ws, r, {'probe': 'args'}.get(case['observe'], case['observe']))
         stderr_head = r.err[:600]
     labels = ['example:' + case['name'].split(':')[0]]
     if actual in case['expect']:
@@ -720,21 +739,9 @@ def tok_strategy(tier):
     return gen.tok_case(tier)
 
 
-_FUZZ_ALPHABET = ['a', 'b', ' ', ' ', '\t', '\n', '\n', "'", '"', '@[', ']@', 'S', '_', '#', '\\', '=', ':', '|', '(', ')',
-                  '{', '}', '!', '&&', '||', '-', '<<', 'EOF', ':>', 'é', '[', ']', '@', '<', '>', '&', '\r', '0',
-                  '\xa0', '\x0c', '\u2028', '\x1f', '\u3000']
-
-
 def decode_tok(data: bytes):
-    """bytes -> tokenizer case: the first byte gives the number of operations, then the operations, the rest
-    selects source fragments from a fixed alphabet (structured decoding, so that coverage feedback works on
-    the syntax and not on UTF-8 validity)"""
-    if not data:
-        return {'src': '', 'ops': []}
-    n_ops = data[0] % 9
-    ops = [(0, 0, 0, 0, 1, 2)[b % 6] for b in data[1:1 + n_ops]]
-    src = ''.join(_FUZZ_ALPHABET[b % len(_FUZZ_ALPHABET)] for b in data[1 + n_ops:])
-    return {'src': src, 'ops': ops}
+    """bytes -> tokenizer case (see vlib/gen/c09_gen.decode_tok); module-level function for vlib/fuzz.py"""
+    return gen.decode_tok(data)
 
 
 def _render_cli(case):
@@ -744,11 +751,11 @@ def _render_cli(case):
 
 SUBS = [
     Sub('cli_examples', check_example, enumerate=enum_examples, exhaustive=True, shards={'quick': 2, 'thorough': 2}),
-    Sub('cli_roundtrip', check_cli, strategy=cli_strategy, budget={'quick': 3600, 'thorough': 100000},
+    Sub('cli_roundtrip', check_cli, strategy=cli_strategy, budget={'quick': 4800, 'thorough': 100000},
         render=_render_cli),
-    Sub('cli_unicode_space', check_cli, strategy=cli_uws_strategy, budget={'quick': 1800, 'thorough': 50000},
+    Sub('cli_unicode_space', check_cli, strategy=cli_uws_strategy, budget={'quick': 2400, 'thorough': 50000},
         render=_render_cli),
-    Sub('tokenizer_diff', check_tok, strategy=tok_strategy, budget={'quick': 40000, 'thorough': 1500000}),
+    Sub('tokenizer_diff', check_tok, strategy=tok_strategy, budget={'quick': 20000, 'thorough': 1500000}),
     Sub('tokenizer_small', check_tok, enumerate=enum_small, exhaustive=True),
     fuzz.fuzz_sub('tokenizer_fuzz', 'props.c09_strings', 'check_tok', 'decode_tok', 'tokenizer_diff',
                   runs={'quick': 100000, 'thorough': 4000000}, shards={'quick': 4, 'thorough': 16}, max_len=64,
